@@ -69,8 +69,47 @@ def unjson(x):
 # ---------------------------------------------------------------------------------------------
 # worker side
 
-class StopShard(Exception):
+class StopShard(BaseException):
     pass
+
+
+class CaseTimeout(BaseException):
+    """Raised inside a worker by the per-case watchdog (SIGALRM)."""
+
+
+class watchdog:
+    """with core.watchdog(seconds): ...   raises CaseTimeout in the main thread of the worker when the block runs
+    longer.  The limit is a generous multiple (>= 1000x) of what a case takes; a firing is reported by the check as a
+    suspected hang only after the same case timed out again on a retry."""
+
+    def __init__(self, seconds):
+        self.seconds = seconds
+
+    def _fire(self, signum, frame):
+        raise CaseTimeout()
+
+    def __enter__(self):
+        import signal
+        self.old = signal.signal(signal.SIGALRM, self._fire)
+        signal.setitimer(signal.ITIMER_REAL, self.seconds)
+        return self
+
+    def __exit__(self, *exc):
+        import signal
+        signal.setitimer(signal.ITIMER_REAL, 0)
+        signal.signal(signal.SIGALRM, self.old)
+        return False
+
+
+def guarded(fn, seconds=20, retries=1):
+    """Run fn() under the watchdog.  Returns ('ok', result) or ('hang', None) when it timed out retries+1 times."""
+    for attempt in range(retries + 1):
+        try:
+            with watchdog(seconds):
+                return 'ok', fn()
+        except CaseTimeout:
+            continue
+    return 'hang', None
 
 
 class Ctx:
@@ -137,6 +176,15 @@ class Ctx:
             self.out.write(json.dumps(rec) + '\n')
             self.out.flush()
 
+    def hang(self, case, detail, limit=3):
+        """A suspected hang (watchdog fired twice on one case): a violation; after `limit` of them the shard stops
+        (every further hanging case would cost two watchdog periods)."""
+        self.violation(case, detail, None)
+        self.stat('hangs_suspected')
+        if self.stats['hangs_suspected'] >= limit:
+            self.stat('shard_stopped_after_hangs')
+            raise StopShard()
+
     def note(self, kind, payload):
         self.out.write(json.dumps({'t': 'note', 'kind': kind, 'payload': jsonable(payload)}) + '\n')
 
@@ -181,6 +229,13 @@ class ShardResult:
         self.stderr = ''
 
 
+def _cap_memory():
+    # a runaway case (unbounded construction) must not take the machine down: 6 GB of address space per worker
+    import resource
+    lim = int(os.environ.get('VERIF_WORKER_AS_GB', '6')) << 30
+    resource.setrlimit(resource.RLIMIT_AS, (lim, lim))
+
+
 def run_shards(check_id, specs, tmp, timeout_s, jobs=None):
     """Run every spec in its own worker subprocess (at most `jobs` at a time)."""
     jobs = jobs or NCPU
@@ -198,8 +253,9 @@ def run_shards(check_id, specs, tmp, timeout_s, jobs=None):
             cmd = [PY, '-X', 'faulthandler'] + spec.get('pyflags', []) + ['-m', 'vf.worker', check_id, outp, crumbp]
             if spec.get('wrap'):
                 cmd = spec['wrap'] + cmd
+            capped = spec.get('cext') != 'asan' and not spec.get('wrap')
             p = subprocess.Popen(cmd, stdin=subprocess.PIPE, stdout=subprocess.DEVNULL,
-                                 stderr=open(errp, 'w'), env=env, cwd=VERIF)
+                                 stderr=open(errp, 'w'), env=env, cwd=VERIF, preexec_fn=_cap_memory if capped else None)
             p.stdin.write(json.dumps(spec).encode())
             p.stdin.close()
             running.append((i, spec, p, time.time(), outp, crumbp, errp))
